@@ -7,7 +7,7 @@ CONSTANTS
   BufCounts = {1, 2, 3}
   FlashSizes = {1, 2, 3, 4}
   MaxLen = 30
-  Fates = {"ok", "nack", "lostcmd", "lostreply"}
+  Fates = {"ok", "nack", "lostcmd", "lostreply", "stray"}
   Bug = "addr_overlap"
   Observe = TRUE
 INVARIANT PropOK
